@@ -1496,14 +1496,16 @@ class Stream(AbstractStream):
             else:
                 self.copy_flow(streams[0])
         else:
-            self.P = P = min([i.P for i in streams])
+            P = min([i.P for i in streams])
+            # Read inlet enthalpies before this stream is modified (it may be one of the inlets)
+            if energy_balance: H = sum([i.H for i in streams], Q)
+            self.P = P
             if conserve_phases:
                 phases = self.phase + ''.join([i.phase for i in others])
                 self.phases = phases
             if vle:
                 self._imol.mix_from([i._imol for i in streams])
                 if energy_balance: 
-                    H = sum([i.H for i in streams], Q)
                     self.vle(H=H, P=P)
                 else:
                     self.vle(T=self.T, P=P)
@@ -1511,7 +1513,6 @@ class Stream(AbstractStream):
             else:
                 if energy_balance: 
                     self._imol.mix_from([i._imol for i in streams])
-                    H = sum([i.H for i in streams], Q)
                     if conserve_phases: 
                         self.H = H
                     else:
